@@ -5,7 +5,7 @@ import (
 	"go/types"
 	"sort"
 
-	"golang.org/x/tools/go/ssa"
+	"ikeverif/checker/xt/ssa"
 )
 
 // Alias analysis with a type-based, field-keyed heap abstraction (E3 of DESIGN.md).
